@@ -248,7 +248,8 @@ func (e *L1Env) L1Obs(tr *L1Track, r ExecResult) Ov {
 		e.checkBridgeQueries(ctx, tr, b, cfg, cerr)
 		no, _ := e.K.GetNextOutputIndex(ctx, b)
 		var outs, prs, bts []Ov
-		resp, err := e.Q.OutputProposals(ctx, &ophosttypes.QueryOutputProposalsRequest{BridgeId: b})
+		// explicit page limit: without a page request the query stops after 100 entries
+		resp, err := e.Q.OutputProposals(ctx, &ophosttypes.QueryOutputProposalsRequest{BridgeId: b, Pagination: &query.PageRequest{Limit: 1000000}})
 		if err != nil {
 			panic(err)
 		}
@@ -271,7 +272,7 @@ func (e *L1Env) L1Obs(tr *L1Track, r ExecResult) Ov {
 			}
 			lf = ol(onU(q.OutputIndex), onU(q.OutputProposal.L2BlockNumber))
 		}
-		tp, err := e.Q.TokenPairs(ctx, &ophosttypes.QueryTokenPairsRequest{BridgeId: b})
+		tp, err := e.Q.TokenPairs(ctx, &ophosttypes.QueryTokenPairsRequest{BridgeId: b, Pagination: &query.PageRequest{Limit: 1000000}})
 		if err != nil {
 			panic(err)
 		}
